@@ -478,6 +478,14 @@ def _p2(ctx, g, x, root, fl, no_reader_bit):
             ok = x.dom(one_edges, n) and any(x.dom({f_}, n) for f_ in acq)
             ctx.add('P2b', 'T-GUARD', g.nodes[n].fn, ok, 'state:=Uni only on the writers==1 edge, after an Acquire fence' if ok else
                     'state:=Uni at %s not guarded by writers==1 + Acquire fence' % g.where(n), flavour=fl, where=g.where(n), sub='set')
+            # ... and right there: the observation "writers == 1" is only good until other code runs. A send attempt between
+            # the observation and the downgrade runs user code (the destructor of the recycled value), which can clone this
+            # very handle - Clone marks it Multi, the late downgrade marks it Uni again while a second writer exists
+            mid = [c_ for c_ in claims if wload is not None and x.reaches(wload, c_.nid) and x.reaches(c_.nid, n)
+                   and n in x.reach_from(c_.nid, blocked={wload})]
+            ctx.add('P2b', 'T-ORD', g.nodes[n].fn, not mid, 'the downgrade to single-writer mode directly follows the observation writers==1 (no send attempt in between)' if not mid else
+                    'state:=Uni at %s is stored after a send attempt that follows the observation writers==1 (%s): the attempt can run user code (Drop of the recycled value) that clones this sender - the handle is then marked single-writer while a second writer exists'
+                    % (g.where(n), x.describe(mid[0].nid)), flavour=fl, where=g.where(n), sub='set-after-attempt')
         elif v[0] != 'agg':
             ctx.add('P2b', 'T-GUARD', g.nodes[n].fn, False, 'state set to a non-constant value', flavour=fl, where=g.where(n), sub='set?')
     # P2c: the signal word is loaded and handled before any claim; no-reader => Disconnected
